@@ -251,6 +251,9 @@ def _tuples_quick():
         yield t
     for t in itertools.product(ATOMS, repeat=3):
         yield t
+    # the deeper single components of the end-to-end tier ('/'-joined tuples, hand-shaped traversals of 5..9 atoms)
+    for s in _raw_strings_quick(True):
+        yield (s,)
 
 
 def _sj_task(args):
@@ -724,7 +727,8 @@ def _sf_task(args):
 def _domain(tier):
     return ("safe_join: 1-tuples of components made of <=3 concatenated atoms (23 atoms: '..','.','','/','//',backslash,"
             "'C:','~',%2e%2e,%2f,%5c,%00,%252e%252e, names, dotted names, the scratch path) plus 32 extra hostile atoms in "
-            "fixed frames, 2-tuples of <=2 core atoms and of single atoms, 3-tuples of single atoms; each raw and "
+            "fixed frames and every request string of the e2e part as one component, 2-tuples of <=2 core atoms and of single "
+            "atoms, 3-tuples of single atoms; each raw and "
             "percent-decoded; x 11 base directories (absolute, trailing slash, relative, './', '../', with inner '..', "
             "two-level, empty, '.', '/', '..').  e2e: the same strings ('/'-joined tuples) and ~30k hand-shaped "
             "traversal strings as raw request paths, decoded once, through send_from_directory (8 base forms incl. cwd-"
